@@ -366,15 +366,19 @@ func init() {
 func init() {
 	// crash / fault injection and process identity
 	register(symPkg+"RunToCrash", func(fr *frame, args []value) (res value) {
-		r := fr.run()
-		r.flags["crashArmed"] = 1
+		fr.g.crashArmed++
 		firstNew := len(fr.sched().gs)
+		g := fr.g
 		defer func() {
-			r.flags["crashArmed"] = 0
+			g.crashArmed--
 			if p := recover(); p != nil {
 				if _, ok := p.(crashNow); ok {
 					// the process is dead: none of its goroutines runs any further
-					fr.sched().killFrom(firstNew)
+					if g.pid != 0 {
+						fr.sched().killPid(g.pid, g, firstNew)
+					} else {
+						fr.sched().killFrom(firstNew)
+					}
 					res = true
 					return
 				}
@@ -403,7 +407,12 @@ func init() {
 		return nil
 	})
 	register(symPkg+"SetPid", func(fr *frame, args []value) value {
-		fr.run().flags["pid"] = asInt64(args[0])
+		fr.g.pid = asInt64(args[0]) // the model process id of this goroutine (and goroutines it starts)
+		return nil
+	})
+	register(symPkg+"CrashBudget", func(fr *frame, args []value) value {
+		fr.run().flags["crashBudgetSet"] = 1
+		fr.run().flags["crashBudget"] = asInt64(args[0])
 		return nil
 	})
 	register(symPkg+"TempDir", func(fr *frame, args []value) value {
